@@ -104,6 +104,9 @@ def run(pid, tier):
         if tier == "quick":
             scenarios.append(runlib.barrier_scenario(6, "first", chk.seed))
             scenarios.append(runlib.barrier_scenario(6, "last", chk.seed))
+        # members sharing one executable file (common command directory)
+        for s, pos in ((2, "first"), (4, "middle"), (9, "last")) + (((17, "middle"), (33, "first")) if tier == "thorough" else ()):
+            scenarios.append(runlib.barrier_scenario(s, pos, chk.seed, shared=True))
     else:
         behs = behaviours(chk, tier, chk.seed, pid)
         nb = 45 if tier == "quick" else 900
